@@ -349,6 +349,49 @@ def pipeline (spec : List Opt) (ini : List (Str × CfgVal)) (dodo : List (Str ×
   | .error e => .error e
   | .ok st => withDodo dodo (parse false st env argv).2
 
+/-! ## loader options written before the sub-command name (`doit -f x.py -k list …`) -/
+
+/-- one (option, text) pair of `loader_opt_parser.parse_only(all_args)`: the dict starts empty, holds only the
+    options that were written; a list option would be `params[name] + [val]` on a missing key (KeyError) -/
+def preStep (lspec : List Opt) (acc : List (Str × Val)) (kv : Key × Str) : Except Err (List (Str × Val)) :=
+  match getOption lspec kv.1 with
+  | none => .error .crash
+  | some (o, inv) =>
+    match o.ty with
+    | .bool => .ok (aset o.name (.b (!inv)) acc)
+    | .list => .error .crash
+    | _ => match str2type o kv.2 with
+      | .error e => .error e
+      | .ok v => .ok (aset o.name v acc)
+
+def preVals (lspec : List Opt) : Pairs → List (Str × Val) → Except Err (List (Str × Val))
+  | [], acc => .ok acc
+  | kv :: rest, acc => match preStep lspec acc kv with
+    | .error e => .error e
+    | .ok acc' => preVals lspec rest acc'
+
+/-- `opt_vals`: the loader options given before the command name (`pre` = the tokens in front of it).
+    `none` when they do not parse (doit then treats the whole command line differently; not generated). -/
+def optVals (lspec : List Opt) (pre : List Str) : Option (List (Str × Val)) :=
+  match getopt lspec pre with
+  | .ok (ps, []) => (preVals lspec ps []).toOption
+  | _ => none
+
+/-- `params.update(self.opt_vals)` in `Command.parse_execute`: plain `dict.update` — the value is replaced whatever
+    its source was, `_non_default_keys` is not touched -/
+def applyOptVals : List (Str × Val) → Params → Params
+  | [], p => p
+  | (k, v) :: rest, p => applyOptVals rest (p.setDefault k v)
+
+/-- the resolution with loader options in front of the command name.  Returns the parameters as the loader's
+    `setup()` receives them (before DOIT_CONFIG is known), the parameters after `update_defaults(DOIT_CONFIG)`, and
+    the positionals. -/
+def pipelinePre (spec : List Opt) (ov : List (Str × Val)) (ini : List (Str × CfgVal)) (dodo : List (Str × Val))
+    (env : Str → Option Str) (argv : List Str) : Except Err (Params × Params × List Str) :=
+  match pipeline spec ini [] env argv with
+  | .error e => .error e
+  | .ok (p, pos) => .ok (applyOptVals ov p, updateDefaults dodo (applyOptVals ov p), pos)
+
 /-- what `DoitMain.run` makes of the resolution: the command's return, `ERROR: …` with exit code 3, or an uncaught
     exception (traceback, exit status 1) -/
 inductive Outcome
